@@ -207,6 +207,14 @@ func (self *DbImpl) Batch(ctx MutateContext, fn func(ctx MutateContext) error) e
 		// bbolt re-runs fn if the batch it was part of had to be rolled back (because another member failed).
 		// Actions registered by a rolled back attempt must not survive into the next attempt.
 		preCommitCount, commitCount := ctx.actionCounts()
+		committed := false
+		defer func() {
+			// the actions of a batch which failed for good - or whose function panicked - do not stay on the context
+			// (see Update)
+			if !committed {
+				ctx.truncateActions(preCommitCount, commitCount)
+			}
+		}()
 
 		err := self.db.Batch(func(tx *bbolt.Tx) error {
 			ctx.truncateActions(preCommitCount, commitCount)
@@ -229,10 +237,7 @@ func (self *DbImpl) Batch(ctx MutateContext, fn func(ctx MutateContext) error) e
 
 			return nil
 		})
-		if err != nil {
-			// the same for the actions of a batch which failed for good (see Update)
-			ctx.truncateActions(preCommitCount, commitCount)
-		}
+		committed = err == nil
 		return err
 	}
 
